@@ -78,6 +78,7 @@ func checkC09(c *Ctx) {
 		"T-RAWHASH-verifier: checkSignature verifies SM2-curve keys with Sm2Verify over the raw signed bytes and other ECDSA/RSA keys over the digest",
 		"T-SIGALG: every row of signatureAlgorithmDetails maps, in checkSignature's switch, to the same hash; SM2 rows carry the ECDSA key type; unknown algorithms are rejected",
 		"K-C09-oid: SM2/SM3 signature OIDs and the SM2 named-curve OID equal their registered values; curve<->OID maps are inverse for SM2; default SM2 parameters are SM3 + the SM2-with-SM3 OID",
+		"T-PSS-salt / T-PSS-opts: every rsa.PSSOptions built in the package (creators and verifier) uses SaltLength = hash size as the encoded parameters announce, and every creator can hand PSS options to the signer",
 		"G-C09-sigbits: each creator places the signer's output as the BIT STRING signature and the chosen AlgorithmIdentifier in both the TBS and the outer structure")
 	c.NotDec = append(c.NotDec, "field-by-field parse-back of all template fields", "failure under any other key / any modified byte (cryptographic)")
 
@@ -146,6 +147,7 @@ func checkC09(c *Ctx) {
 	}
 	c09Verifier(c, rows)
 	c09OIDs(c)
+	c09PSS(c)
 }
 
 // c09Creator: evaluate the raw/digest predicate of one creator over all models
@@ -651,5 +653,130 @@ func c09OIDs(c *Ctx) {
 			}
 		}
 		c.Check(ok, "K-C09-oid", fname(f), "SM2 named-curve OID -> SM2 curve", "", "namedCurveFromOID does not map oidNamedCurveP256SM2 to sm2.P256Sm2()", f.Pos())
+	}
+}
+
+// c09PSS: RSA-PSS agreement between the signing and the verifying side.
+//   T-PSS-salt: every rsa.PSSOptions built in package x509 (handed to Signer.Sign by the creators, to rsa.VerifyPSS by
+//   checkSignature) has SaltLength == rsa.PSSSaltLengthEqualsHash, the value the encoded RSASSA-PSS parameters announce;
+//   T-PSS-opts: every creator's Sign call can receive such options (on the isRSAPSS path) — otherwise an object whose
+//   AlgorithmIdentifier says RSASSA-PSS carries a PKCS#1 v1.5 signature and fails its own verification.
+func c09PSS(c *Ctx) {
+	isPSSOpts := func(t types.Type) bool {
+		return strings.HasSuffix(t.String(), "crypto/rsa.PSSOptions")
+	}
+	nOpts := 0
+	for _, f := range c.P.RepoFuncs("x509") {
+		perFn := 0
+		instrsOf(f, func(_ *ssa.BasicBlock, in ssa.Instruction) {
+			al, ok := in.(*ssa.Alloc)
+			if !ok {
+				return
+			}
+			pt, ok := al.Type().Underlying().(*types.Pointer)
+			if !ok || !isPSSOpts(pt.Elem()) {
+				return
+			}
+			nOpts++
+			perFn++
+			c.Evals++
+			salt := int64(0) // zero value: PSSSaltLengthAuto
+			found := false
+			for _, u := range *al.Referrers() {
+				fa, ok := u.(*ssa.FieldAddr)
+				if !ok || fieldName(al.Type(), fa.Field) != "SaltLength" {
+					continue
+				}
+				for _, u2 := range *fa.Referrers() {
+					if st, ok := u2.(*ssa.Store); ok && st.Addr == ssa.Value(fa) {
+						if k, isC := constInt(st.Val); isC {
+							salt, found = k, true
+						} else {
+							salt, found = 12345, true
+						}
+					}
+				}
+			}
+			_ = found
+			c.Check(salt == -1, "T-PSS-salt", fname(f), fmt.Sprintf("PSSOptions #%d uses SaltLength = hash size", perFn), "rsa.PSSSaltLengthEqualsHash on both sides, as announced by the encoded parameters", fmt.Sprintf("SaltLength is %d (0 = auto/maximal): the signer, the verifier and the encoded RSASSA-PSS parameters (salt length = hash size) no longer agree, so RSA-PSS objects fail verification under their own issuer", salt), al.Pos())
+		})
+	}
+	if nOpts < 3 {
+		c.Undecided("T-PSS-salt", "x509", "PSSOptions literals", fmt.Sprintf("only %d found (expected the two creators and the verifier)", nOpts), token.NoPos)
+	}
+	// creators
+	var reaches func(v ssa.Value, depth int, seen map[ssa.Value]bool) bool
+	reaches = func(v ssa.Value, depth int, seen map[ssa.Value]bool) bool {
+		if depth > 8 || seen[v] {
+			return false
+		}
+		seen[v] = true
+		switch x := v.(type) {
+		case *ssa.Alloc:
+			if pt, ok := x.Type().Underlying().(*types.Pointer); ok && isPSSOpts(pt.Elem()) {
+				return true
+			}
+			// a variable cell: any stored value
+			for _, u := range *x.Referrers() {
+				if st, ok := u.(*ssa.Store); ok && st.Addr == ssa.Value(x) && reaches(st.Val, depth+1, seen) {
+					return true
+				}
+			}
+		case *ssa.MakeInterface:
+			return reaches(x.X, depth+1, seen)
+		case *ssa.ChangeInterface:
+			return reaches(x.X, depth+1, seen)
+		case *ssa.Phi:
+			for _, e := range x.Edges {
+				if reaches(e, depth+1, seen) {
+					return true
+				}
+			}
+		case *ssa.UnOp:
+			if x.Op == token.MUL {
+				return reaches(x.X, depth+1, seen)
+			}
+		case *ssa.Call:
+			if sc := x.Call.StaticCallee(); sc != nil && inRepo(sc) {
+				for _, b := range sc.Blocks {
+					if ret, ok := b.Instrs[len(b.Instrs)-1].(*ssa.Return); ok && len(ret.Results) == 1 && reaches(ret.Results[0], depth+1, seen) {
+						return true
+					}
+				}
+			}
+		}
+		return false
+	}
+	nSign := 0
+	for _, name := range []string{"CreateCertificate", "CreateCertificateRequest", "CreateRevocationList", "(*Certificate).CreateCRL"} {
+		f := c.Fn("x509", name)
+		if f == nil {
+			continue
+		}
+		// a creator that always asks for the default algorithm (requested algorithm is the constant 0) never
+		// produces RSA-PSS: the default for RSA keys is PKCS#1 v1.5
+		onlyDefault := false
+		if sp := findCall(f, "signingParamsForPublicKey"); sp != nil && len(sp.Common().Args) == 2 {
+			if k, isC := constInt(sp.Common().Args[1]); isC && k == 0 {
+				onlyDefault = true
+			}
+		}
+		for _, ci := range allCalls(f) {
+			call, ok := ci.(*ssa.Call)
+			if !ok || !call.Call.IsInvoke() || call.Call.Method.Name() != "Sign" || len(call.Call.Args) != 3 {
+				continue
+			}
+			nSign++
+			if onlyDefault {
+				c.Holds("T-PSS-opts", fname(f), fmt.Sprintf("Sign #%d can receive RSA-PSS options", siteOrdinalByID(f, call)), "not needed: this creator always requests the default algorithm, which is never RSA-PSS", call.Pos())
+				continue
+			}
+			c.Evals++
+			ok2 := reaches(call.Call.Args[2], 0, map[ssa.Value]bool{})
+			c.Check(ok2, "T-PSS-opts", fname(f), fmt.Sprintf("Sign #%d can receive RSA-PSS options", siteOrdinalByID(f, call)), "", "the signer options are never rsa.PSSOptions: for an RSA-PSS signature algorithm the object announces RSASSA-PSS but carries a PKCS#1 v1.5 signature and fails its own verification", call.Pos())
+		}
+	}
+	if nSign < 3 {
+		c.Undecided("T-PSS-opts", "x509", "creators", fmt.Sprintf("only %d Sign calls found", nSign), token.NoPos)
 	}
 }
